@@ -462,6 +462,103 @@ func mbFailedConstruction() (map[string]string, []engine.Violation) {
 			out = append(out, *v)
 		}
 	}
+	// the backing file cannot be created (no descriptor is free): whatever the constructor had set up before that point —
+	// an address-space reservation, for one — is released again. The soft descriptor limit is lowered to the highest
+	// descriptor in use and the holes below it are filled, for the duration of the one call.
+	{
+		const pages = 16411 // a size no other mapping of the process has
+		req := pages * p
+		var lim syscall.Rlimit
+		syscall.Getrlimit(syscall.RLIMIT_NOFILE, &lim)
+		cen := kern.Census(dirfd)
+		maxfd := dirfd
+		for fd := range cen {
+			if fd > maxfd {
+				maxfd = fd
+			}
+		}
+		// (opened before the table is filled: afterwards nothing can be opened)
+		mapsFd, merr := syscall.Open("/proc/self/maps", syscall.O_RDONLY|syscall.O_CLOEXEC, 0)
+		if merr != nil {
+			engine.HarnessError("open /proc/self/maps: %v", merr)
+		}
+		defer syscall.Close(mapsFd)
+		if mapsFd > maxfd {
+			maxfd = mapsFd
+		}
+		readMaps := func() string {
+			var sb strings.Builder
+			buf := make([]byte, 1<<16)
+			off := int64(0)
+			for {
+				n, err := syscall.Pread(mapsFd, buf, off)
+				if n <= 0 || err != nil {
+					break
+				}
+				sb.Write(buf[:n])
+				off += int64(n)
+			}
+			return sb.String()
+		}
+		var fillers []int
+		low := lim
+		low.Cur = uint64(maxfd + 1)
+		if err := syscall.Setrlimit(syscall.RLIMIT_NOFILE, &low); err == nil {
+			for {
+				fd, err := syscall.Open("/dev/null", syscall.O_RDONLY|syscall.O_CLOEXEC, 0)
+				if err != nil {
+					break
+				}
+				fillers = append(fillers, fd)
+			}
+			regions := func() map[string]bool {
+				m := map[string]bool{}
+				maps := readMaps()
+				if maps == "" {
+					engine.HarnessError("/proc/self/maps could not be read")
+				}
+				for _, line := range strings.Split(maps, "\n") {
+					var lo, hi uintptr
+					if _, err := fmt.Sscanf(line, "%x-%x", &lo, &hi); err == nil && int(hi-lo) >= req {
+						m[line] = true
+					}
+				}
+				return m
+			}
+			rb := regions()
+			mb, err := sbytes.NewMirroredBuffer(req, false)
+			ra := regions()
+			syscall.Setrlimit(syscall.RLIMIT_NOFILE, &lim)
+			for _, fd := range fillers {
+				syscall.Close(fd)
+			}
+			outcome := "failed"
+			if err == nil {
+				outcome = "succeeded+Destroy"
+				mb.Destroy()
+				ra = regions()
+			}
+			outcomes["no descriptor free"] = fmt.Sprintf("%s (%v); mappings of at least the buffer's size before %d, after %d", outcome, err, len(rb), len(ra))
+			for line := range ra {
+				if !rb[line] {
+					v := mbViol("mirrored.New/mapping-left", "NewMirroredBuffer(%d) with no descriptor free %s (%v) and left a mapping of at least the buffer's size behind: %s", req, outcome, err, line)
+					v.Config = "construction,nofile"
+					out = append(out, *v)
+					break
+				}
+			}
+			if left := mbShmFiles(int64(req)); len(left) > 0 {
+				v := mbViol("mirrored.New/backing-file-left", "NewMirroredBuffer(%d) with no descriptor free %s (%v) and left its backing file behind: /dev/shm/%s", req, outcome, err, strings.Join(left, " "))
+				v.Config = "construction,nofile"
+				out = append(out, *v)
+				for _, n := range left {
+					os.Remove("/dev/shm/" + n)
+				}
+			}
+		} else {
+			outcomes["no descriptor free"] = "not run: setrlimit " + err.Error()
+		}
+	}
 	return outcomes, out
 }
 
@@ -555,7 +652,7 @@ func C11(tier string) *engine.Report {
 	rep.Coverage["constructions_refused_or_huge"] = nc
 	tot.Fill(rep, "reachable states of a real MirroredBuffer per requested size (1-6/8 pages and three sizes that are rounded up) under Claim/Commit/Consume with amounts on the half-page grid, size+1 and "+
 		"at most K odd amounts {1,u+1,size-1}, and Reset, BFS to fixpoint; state = implementation integers + model (head,used) + odd amounts spent; claims are judged by address against the ring model, "+
-		"filled with tags and read back through both mappings; plus one create/use/Destroy lifecycle per size checked against /proc/self/maps and the backing file, and one destroy-A, create-B, destroy-A-again sequence per size (B keeps both mappings); plus a fixed walk (round once, write through a claim crossing the end, round again, read ring positions 0..7 back through the first mapping) for 10 large sizes from 1 MiB + 1 page to 1 GiB + 1 page around the 2 MiB multiples; plus 10 constructions with invalid, huge (2^36..2^62, refused by the kernel at the reservation or granted and destroyed) sizes checked against the descriptor census, /dev/shm and the mappings")
+		"filled with tags and read back through both mappings; plus one create/use/Destroy lifecycle per size checked against /proc/self/maps and the backing file, and one destroy-A, create-B, destroy-A-again sequence per size (B keeps both mappings); plus a fixed walk (round once, write through a claim crossing the end, round again, read ring positions 0..7 back through the first mapping) for 10 large sizes from 1 MiB + 1 page to 1 GiB + 1 page around the 2 MiB multiples; plus a construction with no descriptor free and 10 constructions with invalid, huge (2^36..2^62, refused by the kernel at the reservation or granted and destroyed) sizes checked against the descriptor census, /dev/shm and the mappings")
 	rep.Coverage["lifecycles"] = len(mbRequests(tier))
 	return rep
 }
